@@ -40,6 +40,7 @@ type ObSpec struct {
 	Reach          []string       `json:"reach"`
 	Solver         string         `json:"solver"`
 	TimeoutMs      int            `json:"timeout_ms"`
+	NoStub         []string       `json:"no_stub"`              // functions whose executor stub is switched off (their real body is executed)
 	MaxSteps       int            `json:"max_steps"`            // instruction budget per path (default 4000000)
 	Diverge        bool           `json:"diverge_is_violation"` // exceeding the unwinding / step bound is reported as non-termination
 	Cuts           []sx.CutSpec   `json:"cuts"`
@@ -412,6 +413,10 @@ func runOb(eng *sx.Engine, o ObSpec, tier string, open map[string]bool, verbose 
 		x.Cfg.MaxSteps = o.MaxSteps
 	}
 	x.Cfg.DivergeViolation = o.Diverge
+	x.Cfg.NoStub = map[string]bool{}
+	for _, n := range o.NoStub {
+		x.Cfg.NoStub[n] = true
+	}
 	if x.Cfg.Unwind == 0 {
 		x.Cfg.Unwind = 600
 	}
@@ -789,7 +794,7 @@ func translatorValidation(spec Spec, results []*obResult, open map[string]bool) 
 		if r == nil || r.Spec.NoReplay || len(r.Spec.Cuts) > 0 || r.Spec.AllowPanic || r.Status != "discharged" {
 			continue
 		}
-		if len(perPkg[r.Spec.Pkg]) >= 2 {
+		if len(perPkg[r.Spec.Pkg]) >= 8 {
 			continue
 		}
 		for _, m := range r.St.Samples {
